@@ -58,6 +58,32 @@ Judge(types, fields, dclasses, dfields, dedges, undeclared) ==
            THEN {"RelationshipToUndeclaredClass"} ELSE {})
 
 -----------------------------------------------------------------------------
+(* Beyond C15: the Mermaid data-model diagram of a whole module              *)
+(* (pkg/mermaid/datamodeldiagram), read against the same type graph: a class *)
+(* for every table, tuple and enum of every application, every field of a    *)
+(* table or tuple listed in its class, and a link between two classes        *)
+(* exactly where a field of the one refers (directly or through a            *)
+(* collection) to the other.  Links are judged as a set: the generator draws *)
+(* one link per pair of classes.                                             *)
+MermaidDataJudge(types, fields, dclasses, dfields, dedges) ==
+  LET wc == {t[1] : t \in {u \in Range(types) : u[2] \in {"tuple", "relation", "enum"}}}
+      any == {t[1] : t \in Range(types)}
+      gc == {c[1] : c \in Range(dclasses)}
+      wf == WantFields(types, fields)
+      gf == {<<f[1], f[2]>> : f \in {g \in Range(dfields) : \E t \in Range(types) : t[1] = g[1] /\ t[2] \in {"tuple", "relation"}}}
+      \* a reference out of a tuple to a field of a type (marked "?") may or may not be a link
+      must == {<<f[1], f[3]>> : f \in {g \in Range(fields) : g[3] \in wc /\ g[1] \in wc}}
+      ge == {<<e[1], e[2]>> : e \in Range(dedges)}
+  IN (IF wc \ gc # {} THEN {"MermaidClassMissing"} ELSE {})
+     \cup (IF gc \ any # {} THEN {"MermaidClassNotInModel"} ELSE {})
+     \cup (IF \E c \in gc : Cardinality({i \in DOMAIN dclasses : dclasses[i][1] = c}) > 1 THEN {"MermaidClassDeclaredTwice"} ELSE {})
+     \cup (IF wf \ gf # {} THEN {"MermaidFieldMissing"} ELSE {})
+     \cup (IF gf \ wf # {} THEN {"MermaidFieldNotInModel"} ELSE {})
+     \cup (IF must \ ge # {} THEN {"MermaidLinkMissing"} ELSE {})
+     \cup (IF \E e \in ge : e \notin must /\ ~\E f \in Range(fields) : f[1] = e[1] /\ (f[3] = e[2] \/ f[3] = e[2] \o "?")
+           THEN {"MermaidLinkNotInModel"} ELSE {})
+
+-----------------------------------------------------------------------------
 (* The intended generator, to show the clauses are satisfiable on every small type graph *)
 VARIABLES types, fields
 Labels == {"A.T", "A.U", "A.E"}
